@@ -433,6 +433,14 @@ def mc_run_all(ctx, scs, can_run_model, tag, with_ref=True):
         for r in runs:
             if r["result"]:
                 ctx.count("result_" + r["result"][0])
+        xtm = [l for l in il if l.startswith("XTM ")]
+        if xtm:
+            ctx.monitor_failures.append({
+                "clause": "C07:mc_bookkeeping",
+                "detail": "on an explored state the framework's pending-timer bookkeeping differs from what the process asked "
+                          "for by its set_timer / set_timer_once / cancel_timer calls and the firings it saw: %s" % xtm[0],
+                "scenario": vlib.scenario_text(sc), "impl": il[:40], "seed": ctx.seed, "suite": "MC",
+                "kind": "bookkeeping"})
         for clause, detail in mc_monitors(sc, runs, ref_runs):
             ctx.monitor_failures.append({"clause": clause, "detail": detail, "scenario": vlib.scenario_text(sc),
                                          "impl": il[:300], "seed": ctx.seed, "suite": "MC"})
@@ -442,7 +450,7 @@ def mc_run_all(ctx, scs, can_run_model, tag, with_ref=True):
     ctx.clauses.update(["C09:rolled_back", "C09:mode_restored", "C14:purged", "C14:stays_silent", "C03:verdict_ok",
                         "C03:error_genuine", "C02:error_trace", "C16:collected_sound", "C16:collected_complete",
                         "C16:status_counts", "C16:stage_union", "C02:state_genuine", "C03:exhaustive", "C03:verdict_kind", "C20:no_panic",
-                        "C19:depth_predicates", "C19:state_depth_current_run", "C14:no_panic", "C19:predicate_value"])
+                        "C19:depth_predicates", "C19:state_depth_current_run", "C14:no_panic", "C19:predicate_value", "C07:mc_bookkeeping"])
     return impl, parsed
 
 
@@ -600,7 +608,7 @@ def suite_mc_matrix_sb(ctx, can_run_model):
         feat["clock"] = False
         feat["stateless"] = False
         feat["sink"] = rng.random() < 0.45      # an order-recording stateless sink: converging histories (C11 hash)
-        base = gen_mc.gen_fanin_base(rng) if j % 5 == 2 else gen_mc.gen_base(rng, feat)
+        base = gen_mc.gen_fanin_base(rng) if j % 5 == 2 else gen_mc.gen_relay_longpair_base(rng) if j % 10 == 4 else gen_mc.gen_base(rng, feat)
         feat_count(ctx, base["feat"])
         g = {}
         for st in ("BFS", "DFS"):
@@ -918,7 +926,7 @@ def suite_mc_timers(ctx, can_run_model):
     scs = witness + scs
     impl = vlib.run_impl(scs, "tm-impl")
     model = vlib.run_model(scs, "tm-model") if can_run_model else {}
-    ctx.clauses.update(["C07:mc_timer_contract", "C02:overridden_delivered"])
+    ctx.clauses.update(["C07:mc_timer_contract", "C07:mc_bookkeeping", "C02:overridden_delivered"])
     for sc in scs:
         sid = sc[1]
         ctx.evaluations += 1
@@ -930,6 +938,14 @@ def suite_mc_timers(ctx, can_run_model):
                                           "diff": {"line": d[0], "impl": d[1][:300], "model": d[2][:300]}})
             else:
                 ctx.validated += 1
+        xtm = [l for l in il if l.startswith("XTM ")]
+        if xtm:
+            ctx.monitor_failures.append({
+                "clause": "C07:mc_bookkeeping",
+                "detail": "on an explored state the framework's pending-timer bookkeeping differs from what the process asked "
+                          "for by its set_timer / set_timer_once / cancel_timer calls and the firings it saw: %s" % xtm[0],
+                "scenario": vlib.scenario_text(sc), "impl": il[:6], "seed": ctx.seed, "suite": "MCTIMERS",
+                "kind": "bookkeeping", "feat": meta[sid]})
         nstates = 0
         bad = None
         for l in il:
